@@ -89,6 +89,86 @@ pub enum PG {
     Probe,
 }
 
+/// SHRINKING: strictly smaller variants of a goal list — one goal dropped, a compound goal replaced by one of its
+/// parts, or the same done one level down.  (The check keeps a variant iff the property still fails on it.)
+pub fn shrink_goals(gs: &[PG]) -> Vec<Vec<PG>> {
+    let mut out: Vec<Vec<PG>> = vec![];
+    for i in 0..gs.len() {
+        // drop goal i
+        let mut v = gs.to_vec();
+        v.remove(i);
+        out.push(v);
+    }
+    for i in 0..gs.len() {
+        // replace goal i by a smaller goal
+        for g in shrink_goal(&gs[i]) {
+            let mut v = gs.to_vec();
+            v.splice(i..=i, g);
+            out.push(v);
+        }
+    }
+    out
+}
+
+/// smaller replacements of one goal (each a list of goals that takes its place)
+fn shrink_goal(g: &PG) -> Vec<Vec<PG>> {
+    let clauses = |cs: &Vec<Vec<PG>>, mk: &dyn Fn(Vec<Vec<PG>>) -> PG| -> Vec<Vec<PG>> {
+        let mut out: Vec<Vec<PG>> = vec![];
+        // one clause alone, inlined
+        for c in cs {
+            out.push(c.clone());
+        }
+        // one clause dropped
+        if cs.len() > 1 {
+            for i in 0..cs.len() {
+                let mut v = cs.clone();
+                v.remove(i);
+                out.push(vec![mk(v)]);
+            }
+        }
+        // one clause shrunk
+        for i in 0..cs.len() {
+            for c2 in shrink_goals(&cs[i]) {
+                let mut v = cs.clone();
+                v[i] = c2;
+                out.push(vec![mk(v)]);
+            }
+        }
+        out
+    };
+    let list = |gs: &Vec<PG>, mk: &dyn Fn(Vec<PG>) -> PG| -> Vec<Vec<PG>> {
+        let mut out: Vec<Vec<PG>> = vec![gs.clone()];
+        for g2 in shrink_goals(gs) {
+            out.push(vec![mk(g2)]);
+        }
+        out
+    };
+    match g {
+        PG::Conj(gs) => list(gs, &|v| PG::Conj(v)),
+        PG::Disj(gs) => list(gs, &|v| PG::Disj(v)),
+        PG::Dfs(gs) => list(gs, &|v| PG::Dfs(v)),
+        PG::Onceo(gs) => list(gs, &|v| PG::Onceo(v)),
+        PG::Closure(gs) => list(gs, &|v| PG::Closure(v)),
+        PG::Project(xs, gs) => {
+            let xs = xs.clone();
+            shrink_goals(gs).into_iter().map(|v| vec![PG::Project(xs.clone(), v)]).collect()
+        }
+        PG::Fresh(b) => {
+            let mut out = vec![vec![(**b).clone()]];
+            for g2 in shrink_goal(b) {
+                out.push(vec![PG::Fresh(Box::new(PG::Conj(g2)))]);
+            }
+            out
+        }
+        PG::Anyo(b) => vec![vec![(**b).clone()]],
+        PG::Conde(cs) => clauses(cs, &|v| PG::Conde(v)),
+        PG::Conda(cs) => clauses(cs, &|v| PG::Conda(v)),
+        PG::Condu(cs) => clauses(cs, &|v| PG::Condu(v)),
+        PG::Loop(cs) => clauses(cs, &|v| PG::Loop(v)),
+        _ => vec![],
+    }
+}
+
 fn toks_goals(gs: &[PG], out: &mut String) {
     out.push_str(&format!("{} ", gs.len()));
     for g in gs {
